@@ -4,6 +4,7 @@ Every stub is listed in the evidence file of the checks that use it.
 """
 import itertools
 import operator
+from fractions import Fraction
 
 import numpy
 import z3
@@ -249,7 +250,8 @@ class ScriptedRNG(BaseRNG):
         for k, ix in enumerate(numpy.ndindex(*shape)):
             nm = "%s_%d" % (tag, k)
             if nm in self.values:
-                a[ix] = float(self.values[nm])
+                v = self.values[nm]
+                a[ix] = float(Fraction(v)) if isinstance(v, str) else float(v)
             else:
                 self.missing += 1
                 a[ix] = float(lo) if lo is not None else 0.0
@@ -261,7 +263,8 @@ class ScriptedRNG(BaseRNG):
         for k, ix in enumerate(numpy.ndindex(*shape)):
             nm = "%s_%d" % (tag, k)
             if nm in self.values:
-                a[ix] = int(self.values[nm])
+                v = self.values[nm]
+                a[ix] = int(Fraction(v)) if isinstance(v, str) else int(v)
             else:
                 self.missing += 1
                 lo_k = int(lo[ix] if isinstance(lo, numpy.ndarray) and lo.shape == shape else lo)
